@@ -286,6 +286,28 @@ CLAIMED["C05"] = {
     "contract. Floats as reals.",
 }
 
+CLAIMED["C07"] = {
+    "text": "Partial claim (a stated set of maps), proved over the reals: "
+    "for rescale_zero_to_one, rescale_minus_one_to_one, logit (eps=None), "
+    "sigmoid, log / exp with log-Jacobian and their inverses: the closed "
+    "form of the map, the reported log-Jacobian equal to log of the "
+    "derivative of the returned expression (symbolic differentiation of "
+    "the extracted term inside pyvc: sum / product / quotient / chain "
+    "rules), and -- as lemmas over pairs of contracts -- inverse(forward(x)) "
+    "= x both ways and the two log-Jacobians cancelling; class layer: "
+    "ScaleAndShift.reparameterise / inverse_reparameterise (per-parameter "
+    "loop unrolled for two names; values, scales, shifts symbolic; "
+    "non-sampling fields untouched; round trip and cancelling Jacobians) "
+    "and RescaleToBounds._rescale_to_bounds / _inverse_rescale_to_bounds.",
+    "note": "NOT under contract (named as unverified): RescaleToBounds "
+    "inversion (split / duplicate), update_bounds / prime priors, Angle, "
+    "ToCartesian, AnglePair, CombinedReparameterisation, "
+    "FlowProposal.rescale, all GW reparameterisations, logit with eps "
+    "(clipping is not a bijection), behaviour at the bounds and floating-"
+    "point closeness. Domain = where the map is regular (open interval "
+    "for logit / log, xmin < xmax, scale != 0, finite inputs as E(x) > 0).",
+}
+
 NA = {
     "C06": "statistical calibration over seeds: no pre/post-condition on a "
     "function expresses a distributional claim and no deductive back end "
